@@ -56,3 +56,5 @@ mod c19_blockpool;
 mod c08_interior;
 #[cfg(kani)]
 mod c37_glue;
+#[cfg(kani)]
+mod c29_map32;
